@@ -452,6 +452,42 @@ def r_doc_comment_span(r, prog, facts_dir):
     r.floor(6)
 
 
+def r_locations_written_by_parsers_only(r, prog):
+    """A location, once a parser has produced it, reaches the reports unchanged: the row/col of a Location and the start/end/file of a Span
+    are assigned only inside slicec::parsers (the cursors of the lexers, the doc-comment extent), and a diagnostic or note stores the very
+    span it is handed. A later adjustment (widening an empty span by a column, clamping) makes reports point at text that is not there."""
+    n = 0
+    for adt, flds in (('slicec::slice_file::Location', ('row', 'col')), ('slicec::slice_file::Span', ('start', 'end', 'file'))):
+        for fld in flds:
+            for a in field_accesses(prog, adt, fld, crates=('slicec', 'slicec_bin')):
+                if a['kind'] not in ('write', 'refmut'):
+                    continue
+                n += 1
+                if a['fn'].path.startswith('slicec::parsers::'):
+                    r.ok('%s.%s written in %s' % (adt.rsplit('::', 1)[-1], fld, a['fn'].path))
+                else:
+                    r.finding('location-adjusted-outside-parsers:%s:%s.%s' % (a['fn'].path, adt.rsplit('::', 1)[-1], fld), a['span'],
+                              '%s assigns %s.%s: locations come from the parsers and are reported as they are' % (a['fn'].path, adt.rsplit('::', 1)[-1], fld))
+    if n < 10:
+        raise AnchorMissing('writes of Location / Span fields (found %d)' % n)
+    D = 'slicec::diagnostics::diagnostic::Diagnostic::'
+    ss = prog.fn(D + 'set_span')
+    stores = [(bb, rv) for bb, j, lhs, rv, st in ss.assigns() if [x.get('n') for x in lhs.get('p', []) if isinstance(x, dict) and 'f' in x] == ['span'] and lhs['l'] == 1 and not ss.blocks[bb].get('cleanup')]
+    vals = [vexpr(ss, rv['a']) if rv['k'] == 'use' else rv['k'] for bb, rv in stores]
+    if vals and all(re.match(r'^(Option::)?Some(\(|\{0:)(to_owned|clone)\(arg2\)[)}]$', v) for v in vals):
+        r.ok('Diagnostic::set_span stores a copy of the span it is given')
+    else:
+        r.finding('set-span-stores-other-span', ss.span, 'Diagnostic::set_span stores %s, not a plain copy of its argument' % vals)
+    an = prog.fn(D + 'add_note')
+    notes = [a for a in aggregates(prog, 'slicec::diagnostics::Note', None, crates=('slicec',)) if a['fn'] is an]
+    got = [vexpr(an, a['rv']['ops'][1]) for a in notes]
+    if got and all(v in ('cloned(arg3)', 'map(arg3,closure())') for v in got) and all(v == 'cloned(arg3)' for v in got):
+        r.ok('Diagnostic::add_note stores a copy of the span it is given')
+    else:
+        r.finding('note-stores-other-span', an.span, 'Diagnostic::add_note stores %s as the span of the note, not a plain copy of its argument' % got)
+    r.floor(12)
+
+
 def run(ctx):
     prog = ctx.prog
     ctx.run_rule('C09.1', 'T11', 'span provenance in every expanded production (path-sensitive over optional symbols)', r_span_provenance, prog, ctx.cache_dir)
@@ -462,4 +498,5 @@ def run(ctx):
     ctx.run_rule('C09.4d', 'T10', 'the source text shown under a location (of a diagnostic or of a note) is cut from the file that location names', _c14.r_snippet_from_span_file, prog)
     ctx.run_rule('C09.4c', 'T10', 'the underline starts at start.col - 1 on the first line (0 on the others) and ends at end.col - 1 on the last (the line width on the others)', r_highlight_bounds, prog)
     ctx.run_rule('C09.4b', 'T13', 'highlight arithmetic conditions (precondition ledger)', r_snippet_arithmetic, prog)
+    ctx.run_rule('C09.6', 'T1', 'locations are written by the parsers only; diagnostics and notes store the span they are given', r_locations_written_by_parsers_only, prog)
     ctx.run_rule('C09.5', 'T10', 'doc comment extent', r_doc_comment_span, prog, ctx.cache_dir)
